@@ -1,6 +1,8 @@
 /- Driver handlers for the indexed-grammar model. -/
 import PflDrv.Json
 import Pfl.Model.Indexed
+import Pfl.Model.IndexedInter
+import PflDrv.FST
 open Lean Pfl
 namespace PflDrv
 
@@ -35,6 +37,10 @@ def igHandle (op : String) (j : Json) : R Json := do
       ("marks", jOpt (jList (jPair jStr (jList jStr))) sat),
       ("derivable", jBool (G.derivable 12 G.start [])),
       ("reachable", jList jStr G.reachableNT), ("generating", jList jStr G.generatingNT)])
+  | "ig.inter" =>   -- triple construction; transducer states are given by their Python repr
+    let T ← asFST (← field j "T")
+    let R := IG.inter T (fun (q : String) => q) G   -- states arrive as their Python repr
+    pure (Json.mkObj [("rules", jList jIRule R.rules), ("isEmpty", jOpt jBool (R.isEmpty 10000))])
   | "ig.removeUseless" => pure (jList jIRule G.removeUseless.rules)
   | _ => throw s!"unknown op {op}"
 
